@@ -145,6 +145,45 @@ Theorem c03_rush_decision_rule :
 Proof. exact c03_rush_rule_at_rung. Qed.
 Print Assumptions c03_rush_decision_rule.
 
+(* (8) rung level construction (successive_halving_rung_levels: explicit list with its validation,
+   grace_period * rf^k for an integer reduction factor, grace_period + k * rung_increment; a final
+   entry equal to max_t is stripped): whenever it does not raise, the levels are non-empty,
+   positive, strictly increasing and all < max_t *)
+Theorem c03_rung_levels_well_formed :
+  forall rung_levels grace_period reduction_factor rung_increment max_t l,
+    sh_rung_levels rung_levels grace_period reduction_factor rung_increment max_t = Some l ->
+    wf_levels l max_t /\ l <> [].
+Proof. exact sh_rung_levels_wf. Qed.
+Print Assumptions c03_rung_levels_well_formed.
+
+(* (9) bracket offset and quantiles, for the state after EVERY event sequence: the rungs at which a
+   trial of bracket b decides (top down) carry exactly the configured (level, quantile) pairs with the
+   b lowest removed - shared system with skip_rungs = b, or the b-th per-bracket system *)
+Theorem c03_own_rungs_structure :
+  forall cfg levels brackets evs b sys,
+  let st := reached cfg levels brackets evs in
+  nth_error (s_sys st) (sys_id cfg b) = Some sys ->
+  map rsig (own_rungs cfg st b) = rev (skipn b (combine levels (mk_quantiles levels (c_max_t cfg)))).
+Proof. exact own_rungs_structure. Qed.
+Print Assumptions c03_own_rungs_structure.
+
+Theorem c03_own_rung_levels :
+  forall cfg levels brackets evs b sys,
+  let st := reached cfg levels brackets evs in
+  nth_error (s_sys st) (sys_id cfg b) = Some sys ->
+  map r_level (own_rungs cfg st b) = rev (skipn b levels).
+Proof. exact own_rung_levels. Qed.
+Print Assumptions c03_own_rung_levels.
+
+(* ... and the quantile of rung level r_j is r_j / r_{j+1}, the last one r_k / max_t *)
+Theorem c03_promotion_quantiles :
+  forall max_t levels j, (j < length levels)%nat ->
+  length (mk_quantiles levels max_t) = length levels /\
+  nth j (mk_quantiles levels max_t) 0 =
+    inject_Z (nth j levels 0%Z) / inject_Z (nth (S j) (levels ++ [max_t]) 0%Z).
+Proof. intros max_t levels j H. split; [apply mk_quantiles_length|apply mk_quantiles_nth; exact H]. Qed.
+Print Assumptions c03_promotion_quantiles.
+
 (* non-vacuity: rung levels 1,3 below max_t 9, two brackets sharing one system; three trials
    report at level 1 (q = 1/3) 5, 7, 5: the third continues (5 <= quantile 5), a fourth
    reporting 8 is stopped (quantile of 5,7,8 is 19/3); trial 3 in bracket 1 takes no decision at level 1 *)
@@ -153,6 +192,9 @@ Example c03_example :
   let evs := [EvSuggest 0 0; EvSuggest 1 0; EvSuggest 2 0; EvSuggest 3 1; EvSuggest 4 0;
               EvReport 0 1 5; EvReport 1 1 7; EvReport 3 1 100] in
   let st := reached cfg [1; 3]%Z 2 evs in
+  sh_rung_levels None 1 (Some 3%Z) None 9 = Some [1; 3]%Z /\
+  sh_rung_levels (Some [2; 5; 9]%Z) 1 None None 9 = Some [2; 5]%Z /\
+  map rsig (own_rungs cfg st 1) = [(3%Z, 3 # 9)] /\
   wf_levels [1; 3]%Z (c_max_t cfg) /\ running st 2 /\ running st 3 /\
   snd (on_trial_result cfg st 2 1 5) = Dec CONTINUE /\
   snd (on_trial_result cfg st 4 1 8) = Dec STOP /\
